@@ -1,5 +1,6 @@
 """STIX2 Core parsing methods."""
 
+import collections.abc
 import copy
 
 from . import registry
@@ -86,9 +87,13 @@ def dict_to_stix2(stix_dict, allow_custom=False, interoperability=False, version
             # flag allows for unknown custom objects too, but will not
             # be parsed into STIX object, returned as is
             return stix_dict
-        for key_id, ext_def in stix_dict.get('extensions', {}).items():
+        extensions = stix_dict.get('extensions')
+        if not isinstance(extensions, collections.abc.Mapping):
+            extensions = {}
+        for key_id, ext_def in extensions.items():
             if (
                 key_id.startswith('extension-definition--') and
+                isinstance(ext_def, collections.abc.Mapping) and
                 'property-extension' not in ext_def.get('extension_type', '')
             ):
                 # prevents ParseError for unregistered objects when
